@@ -216,6 +216,57 @@ def check_tuple(ctx, fix_slice, shape, t, cases, where):
                                  else "full"), sample=case)
 
 
+def check_combine_nd(ctx, fns, rng, n):
+    """combine_slices on rank 2 and 3 (oracle only): the stored tuple as the proxies hold it — a strided slice, a plain
+    `slice(None)` (what a URL hyperslab leaves for the axes it does not name), a normalised slice — per axis, in any
+    arrangement; the second tuple normalised for the shape the stored one leaves"""
+    fix_slice, combine_slices, hyperslab, parse_hyperslab = fns
+    for _ in range(n):
+        shape = tuple(rng.randint(1, 6) for _ in range(rng.choice([2, 2, 3])))
+        x = np.arange(int(np.prod(shape))).reshape(shape)
+        stored = []
+        for N in shape:
+            r = rng.random()
+            if r < 0.35:
+                stored.append(slice(None))
+            elif r < 0.7:
+                a = rng.randrange(N)
+                stored.append(slice(a, rng.randint(a + 1, N + 2), rng.choice([1, 2, 2, 3])))
+            else:
+                a = rng.randrange(N)
+                stored.append(slice(a, rng.randint(a + 1, N), 1) if a + 1 <= N - 1 else slice(a, N, 1))
+        stored = tuple(stored)
+        view = x[stored]
+        second = []
+        for L in view.shape:
+            r = rng.random()
+            if r < 0.3:
+                second.append(slice(None))
+            elif r < 0.75:
+                a = rng.randrange(L)
+                second.append(slice(a, rng.randint(a + 1, L + 1), rng.choice([1, 1, 2])))
+            else:
+                second.append(rng.randrange(L))
+        second = tuple(second)
+        f2 = fix_slice(second, view.shape)
+        exp = view[tuple(slice(e, e + 1) if isinstance(e, int) else e for e in second)]
+        case = {"fn": "combine_slices_nd", "shape": list(shape), "stored": repr(stored), "second": repr(second),
+                "second_fixed": repr(f2)}
+        try:
+            c = combine_slices(stored, f2)
+            got = x[tuple(slice(e, e + 1) if isinstance(e, int) else e for e in c)]
+        except Exception as e:
+            ctx.oracle_fail("combine_slices raised (rank %d)" % len(shape), case, err_class(e), exp.tolist(), size=x.size)
+            continue
+        if got.shape != exp.shape or not (got == exp).all():
+            ctx.oracle_fail("combine_slices(s1, s2) does not select x[s1][s2] (rank %d)" % len(shape), case, got.tolist(),
+                            exp.tolist(), size=x.size * 10)
+        ctx.count(("comb-nd", shape, repr(stored), repr(f2)), exp.size > 0,
+                  tag="nd:rank%d:%s" % (len(shape), "strided-before-plain" if any(
+                      (a.step or 1) > 1 and any(b == slice(None) for b in stored[i + 1:]) for i, a in enumerate(stored)) else "other"),
+                  sample=case)
+
+
 MALFORMED = ["[", "]", "[]", "[1:2:3:4]", "[a]", "[1:b]", "[1][", "[1:2]]", "[[1]]", "[1:2:3][4:5:6:7]", "[ 1 : 2 ]",
              "[1_0]", "[+3]", "[-1:2]", "[1::2]", "[:]", "x", "[1]x[2]", "[1.5]", "[0x10]", "[१]", "[1][2][3]",
              "][", "[1:2][", "[1e3]"]
@@ -272,6 +323,7 @@ def explore(ctx, fns, tier, search=False):
         for s2 in scope_slices(N):
             check_combine(ctx, fns, N, slice(None), s2, cases, "scope-default")
     ctx.correspond("combine_slices", cases)
+    check_combine_nd(ctx, fns, ctx.rng("combine-nd" + ("-search" if search else "")), 400 if (tier == "quick" and not search) else 6000)
     cases = []
     # (c) hyperslab print/parse for every normalised non-empty slice
     for N in range(1, 9):
@@ -407,6 +459,12 @@ def replay(payload):
         x = np.arange(int(np.prod(shape))).reshape(shape)
         idx = eval(c["index"], g)
         got, exp = x[fix_slice(idx, shape)], x[idx]
+    elif c["fn"] == "combine_slices_nd":
+        shape = tuple(c["shape"])
+        x = np.arange(int(np.prod(shape))).reshape(shape)
+        s1, s2, f2 = eval(c["stored"], g), eval(c["second"], g), eval(c["second_fixed"], g)
+        one = lambda t: tuple(slice(e, e + 1) if isinstance(e, int) else e for e in t)
+        got, exp = x[one(combine_slices(s1, f2))], x[s1][one(s2)]
     elif c["fn"] == "combine_slices":
         x = np.arange(c["N"])
         s1, s2, f2 = eval(c["stored"], g), eval(c["second"], g), eval(c["second_fixed"], g)
